@@ -261,6 +261,8 @@ class ConformationContainer:
             # check if we should share determinants
             if self.parameters.shared_determinants:
                 self.share_determinants(all_groups)
+                for group in all_groups:
+                    group.calculate_total_pka()
             # find the group that has the highest pKa value
             first_group = max(all_groups, key=lambda g: g.pka_value)
             # In case of acids
